@@ -288,7 +288,7 @@ struct static_array  // NOLINT(fuchsia-multiple-inheritance) : multiple inherita
 
  public:
 
-	constexpr explicit static_array(decay_type&& other) noexcept
+	constexpr explicit static_array(decay_type&& other) noexcept(multi::allocator_traits<allocator_type>::is_always_equal::value)  // a default-constructed allocator may be unequal to other's: then storage is allocated and the elements are moved
 	: static_array(std::move(other), allocator_type{}) {}  // 6b
 
  private:
